@@ -109,6 +109,57 @@ impl Stats {
             }
         }
     }
+    /// Serialises everything but the `distinct` sets (callers that need those across
+    /// processes do not exist yet; a non-empty set is a programming error here).
+    pub fn to_json(&self) -> J {
+        assert!(self.distinct.values().all(|s| s.is_empty()), "Stats::to_json: distinct sets are not carried");
+        J::obj()
+            .set("counters", J::Obj(self.counters.iter().map(|(k, v)| (k.to_string(), J::Int(*v as i128))).collect()))
+            .set(
+                "found",
+                J::Arr(
+                    self.found
+                        .iter()
+                        .map(|f| {
+                            J::obj()
+                                .set("key", f.key.as_str())
+                                .set("what", f.what.as_str())
+                                .set("replay", f.replay.clone())
+                                .set("rank", J::Int(f.rank as i128))
+                        })
+                        .collect(),
+                ),
+            )
+            .set("found_counts", J::Obj(self.found_counts.iter().map(|(k, v)| (k.clone(), J::Int(*v as i128))).collect()))
+            .set("samples", J::Arr(self.samples.clone()))
+    }
+
+    /// Inverse of [Self::to_json]; counter names are leaked (a handful per process).
+    pub fn from_json(j: &J) -> Option<Stats> {
+        let mut st = Stats::default();
+        if let Some(J::Obj(items)) = j.get("counters") {
+            for (k, v) in items {
+                let name: &'static str = Box::leak(k.clone().into_boxed_str());
+                st.counters.insert(name, v.as_u64()?);
+            }
+        }
+        for f in j.get("found")?.as_arr()? {
+            st.found.push(Found {
+                key: f.get("key")?.as_str()?.to_string(),
+                what: f.get("what")?.as_str()?.to_string(),
+                replay: f.get("replay")?.clone(),
+                rank: f.get("rank")?.as_i128()? as u64,
+            });
+        }
+        if let Some(J::Obj(items)) = j.get("found_counts") {
+            for (k, v) in items {
+                st.found_counts.insert(k.clone(), v.as_u64()?);
+            }
+        }
+        st.samples = j.get("samples")?.as_arr()?.to_vec();
+        Some(st)
+    }
+
     /// Pushes violations, counters and samples into the report.
     pub fn flush_into(self, report: &mut Report) {
         for (k, v) in &self.counters {
